@@ -36,7 +36,8 @@ EXPLANATION = (
     'keypoints_outputs() is the cumulative sum of the kernel rows with the '
     'first output repeated when cyclic (E3); categorical inputs equal to '
     'default_input_value are mapped to the last bucket and looked up by a '
-    'one-hot of depth num_buckets over the bucket axis (E6).')
+    'one-hot of depth num_buckets over the bucket axis (E6).'
+    ' Also decided: in each input form the output depends on every configured source of missingness (flag tensor, comparison with missing_input_value) (E5, influence analysis); the learned closing keypoint is keypoint_min + sum of the lengths; constants built in the evaluation take the operand dtype (D1); numeric options are not truth-tested (N0).')
 ASSUMPTIONS = ['tf.minimum/maximum/concat/cumsum/one_hot/where semantics',
                'kernel layout (keypoints or buckets, units)']
 
